@@ -220,7 +220,21 @@ fn generate_c(seed: u64, quick: bool) -> Value {
     if declaration_bindings(&decl, &libs).is_none() {
         decl = parse_one("(import (lt one))").unwrap();
     }
+    // sometimes a second declaration follows; it may well land on names the first one bound
+    let mut decl2 = None;
+    if rng.chance(1, 3) {
+        for _ in 0..20 {
+            let mut g = GenC { rng: &mut rng, libs: &libs, fresh: 0 };
+            let d = g.rng.upto(max_depth + 1);
+            let cand = list(vec![sym("import"), g.term(d)]);
+            if declaration_bindings(&cand, &libs).is_some() {
+                decl2 = Some(cand.to_text());
+                break;
+            }
+        }
+    }
     json!({
+        "decl2": decl2,
         "seed": seed,
         "hash_seeds": hash_seeds,
         "delivery": delivery,
@@ -315,6 +329,12 @@ fn observe_once(case: &Value, dir: Option<std::path::PathBuf>) -> Observation {
             Ok(_) => {}
             Err(e) => return Err(format!("import failed: {:?}", kind_of_error(&e))),
         }
+        if let Some(d2) = case["decl2"].as_str() {
+            match it.eval(d2.chars()) {
+                Ok(_) => {}
+                Err(e) => return Err(format!("second import failed: {:?}", kind_of_error(&e))),
+            }
+        }
         let mut out: Vec<(String, String)> = vec![];
         {
             let mut defs = it.env.iter_local_definitions();
@@ -351,7 +371,7 @@ fn execute_c(case: &Value) -> RunResult {
         return res;
     }
     let delivery = case["delivery"].as_str().unwrap_or("native").to_string();
-    res.log.push(format!("seed={} delivery={} decl={}", case["seed"], delivery, decl_text));
+    res.log.push(format!("seed={} delivery={} decl={} decl2={}", case["seed"], delivery, decl_text, case["decl2"]));
     // model: the reference module system
     let mut m = Machine::new_empty();
     for (key, exports) in &libs {
@@ -365,7 +385,24 @@ fn execute_c(case: &Value) -> RunResult {
         }
     }
     // the library bodies use `define` with integer literals only: no base import needed
-    let expected: Vec<(String, String)> = match m.eval_top(&decl) {
+    let second = match case["decl2"].as_str() {
+        Some(t) => match parse_one(t) {
+            Ok(d) if declaration_bindings(&d, &libs).is_some() => Some(d),
+            _ => {
+                res.invalid = Some("second import declaration is not admissible".into());
+                return res;
+            }
+        },
+        None => None,
+    };
+    let model_result = m.eval_top(&decl).and_then(|v| match &second {
+        Some(d) => m.eval_top(d),
+        None => Ok(v),
+    });
+    if second.is_some() {
+        res.count("probe.second_declaration");
+    }
+    let expected: Vec<(String, String)> = match model_result {
         Ok(_) => {
             let mut v: Vec<(String, String)> = m
                 .root
@@ -454,7 +491,7 @@ fn execute_c(case: &Value) -> RunResult {
     };
     let maxd = v[1..].iter().map(depth_of).max().unwrap_or(0);
     res.nontrivial = maxd >= 2 || v.len() > 2;
-    res.sched_hash = fnv64(format!("{}|{}", decl_text, delivery).as_bytes());
+    res.sched_hash = fnv64(format!("{}|{}|{}", decl_text, case["decl2"], delivery).as_bytes());
     res.state_hashes.push(fnv64(format!("{:?}", expected).as_bytes()));
     res.count(&format!("delivery.{}", delivery));
     res.count(&format!("depth.{}", maxd));
@@ -562,6 +599,9 @@ impl Engine for EngineC {
                 w[i] = alt;
                 out.push(with_field(case, "decl", json!(list(w).to_text())));
             }
+        }
+        if !case["decl2"].is_null() {
+            out.insert(0, with_field(case, "decl2", Value::Null));
         }
         // fewer hash seeds
         if let Some(hs) = case["hash_seeds"].as_array() {
